@@ -244,7 +244,7 @@ def do_replay(pid, path):
         import e2
         e2.prepare()
         hx = ('00' * v['scale_input'][0] + v['scale_input'][1]) if v.get('scale_input') else v['input_hex']
-        rep = e2.native_replay(v.get('fn', v['check']), hx)
+        rep = e2.native_replay(v.get('fn', v['check']), hx, env_extra=({'LLSYM_ALLOC_FAIL_ABOVE': str(v['alloc_fail_above'])} if v.get('alloc_fail_above') is not None else None))
         print(json.dumps(rep))
         if e2.reproduced(rep):
             print('VIOLATION property=%s replay=%s' % (pid, path))
